@@ -34,6 +34,15 @@ type T struct {
 	C1 int64
 	C2 int64
 	C3 int64
+	// relations, so that Preload("P1".."P3") is meaningful in the DryRun stream (no columns of their own)
+	P1 []PT `gorm:"foreignKey:TID"`
+	P2 []PT `gorm:"foreignKey:TID"`
+	P3 []PT `gorm:"foreignKey:TID"`
+}
+type PT struct {
+	ID  int64 `gorm:"primaryKey"`
+	TID int64
+	V   int64
 }
 
 // ---- a connection pool that can begin transactions and never talks to a database ----
@@ -105,6 +114,16 @@ type FinObs struct {
 	ASQL  string  `json:"alone_sql"`
 	AVars []int64 `json:"alone_vars"`
 	AErr  string  `json:"alone_err"`
+	X     XObs    `json:"x"`       // non-slice state the finisher ran under (shared run)
+	AX    XObs    `json:"alone_x"` // ... in the isolated replay
+}
+
+// XObs: context tag, SkipHooks, Preloads (key, argument tag) and Settings (key, value) of a statement, sorted by key
+type XObs struct {
+	Ctx  int64      `json:"ctx"`
+	Skip bool       `json:"skip"`
+	Pre  [][2]int64 `json:"pre"`
+	Set  [][2]int64 `json:"set"`
 }
 type SlObs struct {
 	Nil bool `json:"nil"`
@@ -117,6 +136,9 @@ type HObs struct {
 	Distinct bool    `json:"distinct"`
 	Unscoped bool    `json:"unscoped"`
 	Table    int64   `json:"table"`
+	X        XObs    `json:"x"`
+	PreNil   bool    `json:"pre_nil"` // Preloads map is nil
+	PreID    int     `json:"pre_id"`  // canonical id of the map object (by first appearance)
 }
 type Obs struct {
 	Fins  []FinObs `json:"fins"`
@@ -674,6 +696,13 @@ func (e *env) apply(db *gorm.DB, handles []*gorm.DB, op *Op) *gorm.DB {
 			s[i] = clause.Join{Expression: clause.Expr{SQL: "JOIN " + mk("f", x) + " ON 1 = ?", Vars: []interface{}{x}}}
 		}
 		return db.Clauses(clause.From{Joins: s})
+	case "preload": // Preload(P<k>) or Preload(P<k>, "v = ?", n)
+		if op.N == 0 {
+			return db.Preload(mk("P", op.Xs[0]))
+		}
+		return db.Preload(mk("P", op.Xs[0]), "v = ?", op.N)
+	case "set":
+		return db.Set(mk("c06k", op.Xs[0]), op.N)
 	case "where_group": // outside the model: a reusable handle passed as a group condition
 		if op.H >= 0 && op.H < len(handles) {
 			return db.Where(handles[op.H])
@@ -730,7 +759,7 @@ func applySess(db *gorm.DB, k string) *gorm.DB {
 			ctx, cancel := context.WithCancel(context.Background())
 			cancel()
 			cfg.Context = ctx
-		case "bctx":
+		case "bctx", "ctx":
 			cfg.Context = context.Background()
 		default:
 			if strings.HasPrefix(o, "vctx") { // a context that carries a tag (seen by hooks, read back from the statement)
@@ -821,7 +850,37 @@ func slInfo(v reflect.Value, ids map[uintptr]int) SlObs {
 
 var tableRe = regexp.MustCompile(`^t([0-9]+)$`)
 
-func readHandle(db *gorm.DB, ids map[uintptr]int) HObs {
+// readX: the non-slice state of a statement
+func readX(st *gorm.Statement) XObs {
+	x := XObs{Ctx: ctxTag(st.Context), Skip: st.SkipHooks, Pre: [][2]int64{}, Set: [][2]int64{}}
+	for k, args := range st.Preloads {
+		if !strings.HasPrefix(k, "P") {
+			continue
+		}
+		n, err := strconv.ParseInt(k[1:], 10, 64)
+		if err != nil {
+			continue
+		}
+		var v int64
+		if len(args) >= 2 {
+			v, _ = args[1].(int64)
+		}
+		x.Pre = append(x.Pre, [2]int64{n, v})
+	}
+	st.Settings.Range(func(k, v interface{}) bool {
+		if ks, ok := k.(string); ok && strings.HasPrefix(ks, "c06k") {
+			n, _ := strconv.ParseInt(ks[4:], 10, 64)
+			vi, _ := v.(int64)
+			x.Set = append(x.Set, [2]int64{n, vi})
+		}
+		return true
+	})
+	sort.Slice(x.Pre, func(i, j int) bool { return x.Pre[i][0] < x.Pre[j][0] })
+	sort.Slice(x.Set, func(i, j int) bool { return x.Set[i][0] < x.Set[j][0] })
+	return x
+}
+
+func readHandle(db *gorm.DB, ids map[uintptr]int, mapIDs map[uintptr]int) HObs {
 	st := db.Statement
 	var where, having, group, order, ret, fromj reflect.Value
 	if w, ok := st.Clauses["WHERE"].Expression.(clause.Where); ok {
@@ -848,6 +907,18 @@ func readHandle(db *gorm.DB, ids map[uintptr]int) HObs {
 	}
 	if m := tableRe.FindStringSubmatch(st.Table); m != nil {
 		h.Table, _ = strconv.ParseInt(m[1], 10, 64)
+	}
+	h.X = readX(st)
+	if st.Preloads == nil {
+		h.PreNil = true
+	} else {
+		p := reflect.ValueOf(st.Preloads).Pointer()
+		id, ok := mapIDs[p]
+		if !ok {
+			id = len(mapIDs)
+			mapIDs[p] = id
+		}
+		h.PreID = id
 	}
 	return h
 }
@@ -876,7 +947,7 @@ func runHistory(in Input) Obs {
 			paths = append(paths, paths[p])
 		case "finish":
 			tx := applyFin(parent, st.Fin)
-			fo := FinObs{Step: i, SQL: tx.Statement.SQL.String(), Vars: toInts(tx.Statement.Vars), Err: errStr(tx.Error)}
+			fo := FinObs{Step: i, SQL: tx.Statement.SQL.String(), Vars: toInts(tx.Statement.Vars), Err: errStr(tx.Error), X: readX(tx.Statement)}
 			handles = append(handles, tx)
 			paths = append(paths, append(append([]Step(nil), paths[p]...), st))
 			// the same chain alone, on a fresh gorm.Open, with fresh argument slices
@@ -905,14 +976,15 @@ func runHistory(in Input) Obs {
 			}
 			atx := applyFin(cur, st.Fin)
 			fo.ASQL, fo.AVars, fo.AErr = atx.Statement.SQL.String(), toInts(atx.Statement.Vars), errStr(atx.Error)
+			fo.AX = readX(atx.Statement)
 			o.Fins = append(o.Fins, fo)
 		default:
 			panic("unknown step " + st.K)
 		}
 	}
-	ids := map[uintptr]int{}
+	ids, mapIDs := map[uintptr]int{}, map[uintptr]int{}
 	for _, h := range handles {
-		o.Final = append(o.Final, readHandle(h, ids))
+		o.Final = append(o.Final, readHandle(h, ids, mapIDs))
 	}
 	return o
 }
@@ -946,6 +1018,15 @@ func tokens(sqlText string) []int64 {
 
 // ---- Gallina printing ----
 func gOp(op *Op) string {
+	switch op.K {
+	case "preload":
+		return lib.App("UPreload", lib.Z(op.Xs[0]), lib.Z(op.N))
+	case "set":
+		return lib.App("USet", lib.Z(op.Xs[0]), lib.Z(op.N))
+	}
+	return "(UOp " + gOp0(op) + ")"
+}
+func gOp0(op *Op) string {
 	xs := lib.ZList(op.Xs)
 	switch op.K {
 	case "where":
@@ -1018,20 +1099,67 @@ func gFin(f *Fin) string {
 func gStep(s Step) string {
 	switch s.K {
 	case "derive":
-		return lib.App("Derive", lib.Nat(s.P), gOp(s.Op))
+		return lib.App("UDerive", lib.Nat(s.P), gOp(s.Op))
 	case "sess":
-		return lib.App("Sess", lib.Nat(s.P), map[string]string{"plain": "SPlain", "newdb": "SNewDB", "ctx": "SCtx", "debug": "SDebug", "begin": "SBegin",
-			// Session{SkipHooks} clones the statement like WithContext; the other options leave the statement shared
-			"skiphooks": "SCtx", "fullsave": "SPlain", "allowglobal": "SPlain", "batchsize": "SPlain", "skipdeftx": "SPlain",
-			"nonested": "SPlain", "skiphooks+fullsave": "SCtx", "allowglobal+batchsize": "SPlain"}[s.Sess])
+		switch s.Sess {
+		case "debug":
+			return lib.App("USess", lib.Nat(s.P), "UDebug")
+		case "begin":
+			return lib.App("USess", lib.Nat(s.P), "UBegin")
+		}
+		si, _ := parseSess(s.Sess)
+		ctx := "None"
+		if si.hasCtx {
+			ctx = "(Some " + lib.Z(si.ctx) + ")"
+		}
+		return lib.App("USess", lib.Nat(s.P), lib.App("USession", lib.Bool(si.newdb), ctx, lib.Bool(si.skip)))
 	case "finish":
-		return lib.App("Finish", lib.Nat(s.P), gFin(s.Fin))
+		return lib.App("UFinish", lib.Nat(s.P), gFin(s.Fin))
 	}
-	return lib.App("Abandon", lib.Nat(s.P))
+	return lib.App("UAbandon", lib.Nat(s.P))
+}
+
+// sessInfo: what the Session options of a step mean for the models: NewDB, the context written (tag),
+// SkipHooks; ok=false when an option is outside the model (PrepareStmt, ...)
+type sessInfo struct {
+	newdb, hasCtx, skip bool
+	ctx                 int64
+}
+
+func (si sessInfo) clones() bool { return si.hasCtx || si.skip }
+func parseSess(k string) (si sessInfo, ok bool) {
+	ok = true
+	for _, o := range strings.Split(k, "+") {
+		switch o {
+		case "plain", "fullsave", "allowglobal", "batchsize", "skipdeftx", "nonested":
+		case "newdb":
+			si.newdb = true
+		case "ctx", "bctx":
+			si.hasCtx, si.ctx = true, 0
+		case "skiphooks":
+			si.skip = true
+		default:
+			if strings.HasPrefix(o, "vctx") {
+				n, err := strconv.ParseInt(o[4:], 10, 64)
+				if err == nil {
+					si.hasCtx, si.ctx = true, n
+					continue
+				}
+			}
+			ok = false
+		}
+	}
+	return
+}
+func gPairs(ps [][2]int64) string {
+	return lib.ListOf(ps, func(p [2]int64) string { return lib.Pair(lib.Z(p[0]), lib.Z(p[1])) })
+}
+func gX(x XObs) string {
+	return lib.App("mk_xo", lib.Z(x.Ctx), lib.Bool(x.Skip), gPairs(x.Pre), gPairs(x.Set))
 }
 func gFinObs(f FinObs) string {
 	return lib.App("mk_fobs", lib.ZList(tokens(f.SQL)), lib.ZList(f.Vars), lib.ZList(tokens(f.ASQL)), lib.ZList(f.AVars),
-		lib.Str(f.SQL), lib.Str(f.ASQL), lib.Str(f.Err), lib.Str(f.AErr))
+		lib.Str(f.SQL), lib.Str(f.ASQL), lib.Str(f.Err), lib.Str(f.AErr), gX(f.X), gX(f.AX))
 }
 func gSl(s SlObs) string {
 	if s.Nil {
@@ -1040,7 +1168,12 @@ func gSl(s SlObs) string {
 	return "(Some (" + lib.Z(int64(s.ID)) + ", " + lib.Z(int64(s.Len)) + ", " + lib.Z(int64(s.Cap)) + "))"
 }
 func gHObs(h HObs) string {
-	return lib.App("mk_hobs", lib.ListOf(h.Sl, gSl), lib.Bool(h.Distinct), lib.Bool(h.Unscoped), lib.Z(h.Table))
+	pre := "None"
+	if !h.PreNil {
+		pre = "(Some " + lib.Pair(lib.Z(int64(h.PreID)), gPairs(h.X.Pre)) + ")"
+	}
+	return lib.App("mk_hobs", lib.ListOf(h.Sl, gSl), lib.Bool(h.Distinct), lib.Bool(h.Unscoped), lib.Z(h.Table),
+		lib.Z(h.X.Ctx), lib.Bool(h.X.Skip), pre, gPairs(h.X.Set))
 }
 func inModel(in Input) bool {
 	if in.Exec {
@@ -1049,6 +1182,11 @@ func inModel(in Input) bool {
 	for _, s := range in.Steps {
 		if s.K == "derive" && s.Op.K == "where_group" {
 			return false
+		}
+		if s.K == "sess" && s.Sess != "debug" && s.Sess != "begin" {
+			if _, ok := parseSess(s.Sess); !ok {
+				return false
+			}
 		}
 	}
 	return true
@@ -1147,11 +1285,13 @@ func (t *tracker) step(s Step) {
 		}
 		nh := hinfo{reusable: true, alive: true, stmt: h.stmt}
 		switch s.Sess {
-		case "newdb":
-			nh.newdb = true
-		case "ctx", "skiphooks", "skiphooks+fullsave":
-			t.ss = append(t.ss, t.ss[h.stmt])
-			nh.stmt = len(t.ss) - 1
+		default:
+			si, _ := parseSess(s.Sess)
+			nh.newdb = si.newdb
+			if si.clones() {
+				t.ss = append(t.ss, t.ss[h.stmt])
+				nh.stmt = len(t.ss) - 1
+			}
 		case "debug":
 			nh.stmt = t.instance(p)
 		case "begin":
@@ -1237,7 +1377,11 @@ func (g *gen) op(stmtOf int) *Op {
 	r := g.r
 	_ = stmtOf
 	for {
-		switch r.Intn(26) {
+		switch r.Intn(29) {
+		case 26, 27: // Preload: an entry of the statement's Preloads MAP (key P1..P3, argument tag)
+			return &Op{K: "preload", Xs: []int64{int64(r.Range(1, 3))}, N: int64(lib.Pick(r, []int{0, 0, 4, 5, 6}))}
+		case 28: // Set: an entry of the statement's Settings
+			return &Op{K: "set", Xs: []int64{int64(r.Range(1, 3))}, N: int64(r.Range(1, 9))}
 		case 0, 1, 2:
 			if r.Chance(1, 4) {
 				xs := g.cells(r.Range(1, 3))
@@ -1372,7 +1516,9 @@ func genHistory(r *lib.Rng, nsteps int, edge bool) Input {
 				p = g.pick(true)
 			}
 			k := lib.Pick(r, []string{"plain", "plain", "plain", "plain", "ctx", "debug", "begin", "newdb",
-				"skiphooks", "skiphooks", "fullsave", "allowglobal", "batchsize", "skipdeftx", "nonested", "skiphooks+fullsave", "allowglobal+batchsize"})
+				"skiphooks", "skiphooks", "fullsave", "allowglobal", "batchsize", "skipdeftx", "nonested", "skiphooks+fullsave", "allowglobal+batchsize",
+				// contexts that carry a tag, and every combination of NewDB / Context / SkipHooks
+				"vctx3", "vctx5", "vctx2+skiphooks", "newdb+vctx4", "newdb+skiphooks", "newdb+vctx6+skiphooks", "newdb+ctx", "newdb+fullsave"})
 			s = Step{K: "sess", P: p, Sess: k}
 		case x < 96:
 			p := g.pick(false)
@@ -1396,7 +1542,12 @@ func genHistory(r *lib.Rng, nsteps int, edge bool) Input {
 // genPattern: the interference pattern instantiated for a random appendable clause.
 func genPattern(r *lib.Rng) Input {
 	g := &gen{r: r, t: newTracker(), next: 9, edge: r.Chance(1, 3)}
-	kind := lib.Pick(r, []string{"where", "or", "order", "orderby", "group", "having", "joins", "scopes", "select_slice", "from", "not", "returning", "returning", "limit", "limit", "offset", "table", "table"})
+	kind := lib.Pick(r, []string{"where", "or", "order", "orderby", "group", "having", "joins", "scopes", "select_slice", "from", "not", "returning", "returning", "limit", "limit", "offset", "table", "table",
+		"preload", "preload", "set", "sessopt", "sessopt"})
+	sessopt := kind == "sessopt" // the children are HANDLES derived with Session options (NewDB / Context / SkipHooks), not chains
+	if sessopt {
+		kind = lib.Pick(r, []string{"where", "preload", "set", "order"})
+	}
 	mk1 := func() *Op {
 		switch kind {
 		case "where":
@@ -1441,6 +1592,10 @@ func genPattern(r *lib.Rng) Input {
 				return &Op{K: "table", N: 0}
 			}
 			return &Op{K: "table", N: g.id()}
+		case "preload":
+			return &Op{K: "preload", Xs: []int64{int64(r.Range(1, 3))}, N: int64(lib.Pick(r, []int{0, 0, 4, 5, 6}))}
+		case "set":
+			return &Op{K: "set", Xs: []int64{int64(r.Range(1, 3))}, N: int64(r.Range(1, 9))}
 		}
 		n := r.Range(1, 2)
 		return &Op{K: "from", Xs: g.ids(n), Cap: g.spare(n)}
@@ -1455,7 +1610,21 @@ func genPattern(r *lib.Rng) Input {
 	for k := lib.Pick(r, []int{1, 2, 3, 3, 3, 4, 5, 6}); k > 0; k-- {
 		cur = push(Step{K: "derive", P: cur, Op: mk1()})
 	}
-	h := push(Step{K: "sess", P: cur, Sess: lib.Pick(r, []string{"plain", "plain", "ctx", "debug", "begin"})})
+	h := push(Step{K: "sess", P: cur, Sess: lib.Pick(r, []string{"plain", "plain", "ctx", "debug", "begin", "vctx3", "skiphooks"})})
+	if sessopt {
+		// child handles with options, never used or used once; then the handle itself and a later chain are judged
+		opts := []string{"newdb+vctx4", "newdb+skiphooks", "newdb+vctx6+skiphooks", "vctx5", "skiphooks", "vctx2+skiphooks", "newdb", "newdb+ctx"}
+		c1 := push(Step{K: "sess", P: h, Sess: lib.Pick(r, opts)})
+		if r.Bool() {
+			push(Step{K: "finish", P: c1, Fin: &Fin{K: "find"}})
+		}
+		push(Step{K: "finish", P: h, Fin: &Fin{K: "find"}})
+		push(Step{K: "sess", P: h, Sess: lib.Pick(r, opts)})
+		c3 := push(Step{K: "derive", P: h, Op: mk1()})
+		push(Step{K: "finish", P: c3, Fin: &Fin{K: lib.Pick(r, []string{"find", "first", "delete"})}})
+		push(Step{K: "finish", P: h, Fin: &Fin{K: "find"}})
+		return in
+	}
 	second := kind
 	if kind == "from" || kind == "select_slice" {
 		second = "joins" // the statement-level append that meets the clause at build time
